@@ -36,7 +36,7 @@ MACROS = {
     # from CSS2.1
     'invalid': r'{invalid1}|{invalid2}',
     # a backslash only as part of an escape (as in CSS 2.1), else every escape can be read in two ways
-    'url': r'[\x09\x21\x23-\x26\x28\x2a-\x5B\x5D-\x7E]|{nonascii}|{escape}',
+    'url': r'[\x21\x23-\x26\x2a-\x5B\x5D-\x7E]|{nonascii}|{escape}',
     's': r'\t|\r|\n|\f|\x20',
     'w': r'{s}*',
     'nl': r'\n|\r\n|\r|\f',
